@@ -362,3 +362,93 @@ func vfCheckEncoded(rep *verifkit.Report, name string, encoded, want []byte, w m
 	}
 	rep.Count("reuse_decoded_ok", 1)
 }
+
+// TestVerifC20ManyInstances: several decompressor (and compressor) instances
+// of one encoding alive at once, each cycled the way connect-go's pools cycle
+// them (Reset(src) / Read / Close / Reset(http.NoBody) / parked / Reset(src)
+// ...), with their steps interleaved: nobody sees another instance's data.
+func TestVerifC20ManyInstances(t *testing.T) {
+	rep := verifkit.Begin("C20", "many-instances", "6 encodings x histories over 2-6 decompressor instances, single goroutine, random interleaving of the per-instance steps {Reset(own stream), read half, read rest, Close, Reset(http.NoBody)}; fresh instances are created while others are parked; every message carries its instance and round; oracle: each instance reads exactly its own current message; distinct = (encoding, history)")
+	defer rep.Write()
+	n := verifkit.Scale(120, 4000)
+	for enc := conformancev1.Compression(1); enc <= 6; enc++ {
+		name := verifkit.CompressionName(enc)
+		_, newDec := vfConstructors(enc)
+		for h := 0; h < n; h++ {
+			rng := verifkit.Stream("c20many", int(enc), h)
+			type inst struct {
+				d     connect.Decompressor
+				state int // 0 parked/new, 1 reset, 2 half read, 3 fully read, 4 closed
+				round int
+				msg   []byte
+				got   []byte
+			}
+			k := 2 + rng.Intn(5)
+			insts := make([]*inst, 0, k)
+			var hist []string
+			bad := false
+			steps := 10 + rng.Intn(40)
+			for s := 0; s < steps && !bad; s++ {
+				if len(insts) < k && (len(insts) == 0 || rng.Chance(1, 4)) {
+					insts = append(insts, &inst{d: newDec()})
+					hist = append(hist, fmt.Sprintf("new#%d", len(insts)-1))
+					continue
+				}
+				i := rng.Intn(len(insts))
+				in := insts[i]
+				w := map[string]any{"encoding": name, "history": append([]string(nil), hist...)}
+				pn := verifkit.Catch(func() {
+					switch in.state {
+					case 0:
+						in.round++
+						in.msg = []byte(fmt.Sprintf("instance-%d-round-%d;", i, in.round))
+						in.msg = bytes.Repeat(in.msg, 1+rng.Intn(40))
+						z, _ := verifkit.IndepCompress(name, in.msg)
+						hist = append(hist, fmt.Sprintf("reset#%d", i))
+						if err := in.d.Reset(bytes.NewReader(z)); err != nil {
+							rep.Violation("compress/"+name+"/many-instances/reset-error", err.Error(), w)
+							bad = true
+							return
+						}
+						in.got = nil
+						in.state = 1
+					case 1:
+						hist = append(hist, fmt.Sprintf("half#%d", i))
+						buf := make([]byte, len(in.msg)/2+1)
+						m, _ := io.ReadFull(in.d, buf)
+						in.got = append(in.got, buf[:m]...)
+						in.state = 2
+					case 2:
+						hist = append(hist, fmt.Sprintf("rest#%d", i))
+						rest, err := io.ReadAll(in.d)
+						in.got = append(in.got, rest...)
+						if err != nil || !bytes.Equal(in.got, in.msg) {
+							w["history"] = append([]string(nil), hist...)
+							rep.Violation("compress/"+name+"/many-instances/foreign-or-lost-data", fmt.Sprintf("instance %d read %d bytes starting %q, its own message has %d bytes starting %q (err %v)", i, len(in.got), verifkit.Trunc(string(in.got), 24), len(in.msg), verifkit.Trunc(string(in.msg), 24), err), w)
+							bad = true
+							return
+						}
+						rep.Count("many_instances_reads_ok", 1)
+						in.state = 3
+					case 3:
+						hist = append(hist, fmt.Sprintf("close#%d", i))
+						_ = in.d.Close()
+						in.state = 4
+					case 4:
+						hist = append(hist, fmt.Sprintf("park#%d", i))
+						_ = in.d.Reset(http.NoBody)
+						in.state = 0
+					}
+				})
+				if pn != nil {
+					rep.Violation("compress/"+name+"/many-instances/panic/"+pn.Site, pn.Value, w)
+					bad = true
+				}
+			}
+			rep.Eval(1)
+			rep.DistinctKey(name, hist)
+		}
+	}
+	rep.Sample(map[string]any{"encoding": "snappy", "history": []string{"new#0", "reset#0", "half#0", "rest#0", "close#0", "new#1", "reset#1", "park#0", "reset#0", "half#1", "rest#1"}, "expect": "instance 1 reads its own message although instance 0 was closed, parked and reset in between"})
+	rep.RequireMin("many_instances_reads_ok", 500)
+}
